@@ -7,7 +7,9 @@
 (***************************************************************************)
 EXTENDS TufClient
 CONSTANTS L,       \* the configured limit of every role, in units
-          Lens     \* lengths of served files, in units
+          Lens,    \* lengths of served files, in units
+          Spread   \* TRUE: a different limit for every role (root L+1, timestamp L, snapshot L+1, targets L+2),
+                   \* so that a limit applied to the wrong role shows
 
 R(v, len) == [k |-> "root", v |-> v, exp |-> 9, len |-> len, b |-> 1, signers |-> {9}, cons |-> FALSE,
               rk |-> {9}, rthr |-> 1, ts |-> <<1>>, tsthr |-> 1, sn |-> <<3>>, snthr |-> 1, tg |-> <<4>>, tgthr |-> 1]
@@ -22,7 +24,8 @@ MC_CandSn(r, ts) == {[k |-> "sn", v |-> 1, exp |-> 9, len |-> len, b |-> 1, sign
                        len \in Lens, p \in Pins(1)} \cup {[k |-> "endless"]}
 MC_CandTg(r, sn) == {[k |-> "tg", v |-> 1, exp |-> 9, len |-> len, b |-> 1, signers |-> {4}] : len \in Lens}
                     \cup {[k |-> "endless"]}
-MC_Limit == [root |-> L, ts |-> L, sn |-> L, tg |-> L]
+MC_Limit == IF Spread THEN [root |-> L + 1, ts |-> L, sn |-> L + 1, tg |-> L + 2]
+            ELSE [root |-> L, ts |-> L, sn |-> L, tg |-> L]
 NoChain == <<>>
 
 \* legitimate files within their own bound are not refused for size
